@@ -73,6 +73,7 @@ type hubRig struct {
 	rev   uint64
 	c0    uint64
 	fail  string
+	eager []int
 }
 
 func newHubRig(c0 uint64) *hubRig {
@@ -83,6 +84,10 @@ func newHubRig(c0 uint64) *hubRig {
 	go r.hub.Stream(r.in)
 	return r
 }
+
+// keepUp makes subscriber w read every batch as soon as it has been fanned out (used for a sentinel subscriber:
+// the fan-out of an item is then always observable, also when nobody else is registered).
+func (r *hubRig) keepUp(w int) { r.eager = append(r.eager, w) }
 
 // barrier: DeleteWatcher on an unknown channel takes the hub's write lock and changes nothing.
 func (r *hubRig) barrier() { r.hub.DeleteWatcher(make(chan []*proto.Event), true) }
@@ -122,6 +127,9 @@ func (r *hubRig) item(registered int, emit bool) uint64 {
 	}
 	if emit {
 		r.sc.labs(lTake(slot{rev: r.rev, prev: r.rev - 1, valid: true, verb: 1, key: []byte("/h/k"), val: []byte("v")}), "LSeqCache", "LSeqSend", lHubItem())
+		for _, x := range r.eager {
+			r.drain(x, 1)
+		}
 	}
 	return r.rev
 }
@@ -130,11 +138,23 @@ func (r *hubRig) item(registered int, emit bool) uint64 {
 func (r *hubRig) drain(w, k int) {
 	s := r.subs[w]
 	n := 0
+	emit := func() {
+		three := []string{lW("LProc", w), lW("LProc", w), lW("LConsume", w)}
+		if n > 6 {
+			r.sc.steps = append(r.sc.steps, lib.App("RRep", lib.N(uint64(n)), lib.List(three)))
+			r.sc.nlab += 3 * n
+		} else {
+			for i := 0; i < n; i++ {
+				r.sc.labs(three...)
+			}
+		}
+	}
 	for n < k {
 		select {
 		case b, ok := <-s.ch:
 			if !ok {
 				s.closed = true
+				emit()
 				r.sc.labs(lW("LProc", w), lW("LConsume", w))
 				r.sc.note("w%d sees close", w)
 				return
@@ -142,12 +162,13 @@ func (r *hubRig) drain(w, k int) {
 			for _, e := range b {
 				s.got = append(s.got, fromProto(e))
 			}
-			r.sc.labs(lW("LProc", w), lW("LProc", w), lW("LConsume", w))
 			n++
 		default:
+			emit()
 			return
 		}
 	}
+	emit()
 }
 
 func (r *hubRig) observe(w int, quiet bool) {
@@ -227,16 +248,18 @@ func hubCases(w *coll, rnd *lib.Rand, tier string) {
 		r := newHubRig(uint64(50 + rnd.Intn(50)))
 		steps := 6 + rnd.Intn(20)
 		reg := map[int]bool{}
+		reg[r.add()] = true // w0: sentinel, reads along, never cancelled
+		r.keepUp(0)
 		for st := 0; st < steps; st++ {
 			switch c := rnd.Intn(10); {
-			case c < 2 && len(r.subs) < 4:
+			case c < 2 && len(r.subs) < 5:
 				reg[r.add()] = true
 			case c < 6:
 				r.item(len(reg), true)
-			case c < 8 && len(r.subs) > 0:
-				r.drain(rnd.Intn(len(r.subs)), 1+rnd.Intn(3))
-			case c == 8 && len(r.subs) > 0:
-				x := rnd.Intn(len(r.subs))
+			case c < 8 && len(r.subs) > 1:
+				r.drain(1+rnd.Intn(len(r.subs)-1), 1+rnd.Intn(3))
+			case c == 8 && len(r.subs) > 1:
+				x := 1 + rnd.Intn(len(r.subs)-1)
 				r.subs[x].cancel()
 				r.sc.lab(lW("LCancel", x))
 				if reg[x] {
